@@ -1,10 +1,10 @@
 #!/bin/bash
-# mutant_sweep.sh [tier] : apply every seeded change to /repo in turn, run the property's check,
+# mutant_sweep.sh [tier] [glob] : apply every seeded change (or those matching seeded/<glob>) to /repo in turn, run the property's check,
 # undo the change, record the outcome in seeded/<id>/meta.json (detected_by) and seeded/RESULTS.md.
-tier="${1:-quick}"
+tier="${1:-quick}"; pat="${2:-C*-*}"
 cd /verif
 : > /tmp/mutant_sweep.tsv
-for d in seeded/C*-*/; do
+for d in seeded/$pat/; do
   m=$(basename "$d"); id="${m%-*}"
   p="/verif/$d/patch.diff"; [ -f "/verif/$d/patch.rebased.diff" ] && p="/verif/$d/patch.rebased.diff"
   out=$(scripts/try_patch.sh "$p" "$id" "$tier" 2>&1); rc=$?
@@ -16,13 +16,22 @@ done
 python3 - "$tier" <<'PY'
 import json,sys
 tier=sys.argv[1]
-rows=[l.rstrip('\n').split('\t') for l in open('/tmp/mutant_sweep.tsv')]
+new=[l.rstrip('\n').split('\t') for l in open('/tmp/mutant_sweep.tsv')]
+# accumulate: results of earlier sweeps are kept for the changes not swept this time
+import os
+acc='/verif/seeded/results.%s.tsv'%tier
+old=[l.rstrip('\n').split('\t') for l in open(acc)] if os.path.exists(acc) else []
+d={r[0]:r for r in old}
+for r in new: d[r[0]]=r
+rows=[d[k] for k in sorted(d)]
+open(acc,'w').write('\n'.join('\t'.join(r) for r in rows)+'\n')
 out=["# Seeded changes vs. checks (%s tier, seed 0)\n"%tier,
      "Produced by scripts/mutant_sweep.sh: each change applied to /repo, the property's check run, the change undone.\n",
      "| change | check | exit | violation classes | patch used | first class |","|---|---|---|---|---|---|"]
 for r in rows:
     r+=['']*(6-len(r))
     out.append("| %s | %s %s | %s | %s | %s | `%s` |"%(r[0],r[1],tier,r[2],r[3],r[4],r[5].replace('|','¦')))
+    if r[0] not in {n[0] for n in new}: continue
     mp='/verif/seeded/%s/meta.json'%r[0]
     try:
         m=json.load(open(mp))
